@@ -626,6 +626,8 @@ def judge(cfg, specs, op, before, after):
         if any(pathsafety.unsafe(b"/".join(tp.split(b"/")[:i]), ntfs, hfs) for i in range(1, tp.count(b"/") + 1)):
             continue  # reported at the shallowest unsafe component
         return "unsafe-name(%s)" % why, "%r exists in the work tree after the operation" % tp, rel
+    if kind == "patch_rename":
+        return None  # a rename patch relocates existing content on request: where content ends up says nothing about refusal
     # entries of the tree being materialised (an operation without a tree argument materialises one of the earlier ones)
     bcontent = {(e[0], e[3]) for e in before if e[1] == "f"}
     for cur in ([op[1]] if op[1] is not None else _dedupe(specs)):
@@ -1111,7 +1113,7 @@ def run(ctx):
     if not q:
         famShapes += fam_triples(mid)
     famA = _dedupe(famNames + famShapes)
-    entryA = ["checkout", "reset_hard", "stash_apply", "patch_add", "am", "checkout_paths", "patch_rename", "patch_copy_to"] if q else \
+    entryA = ["checkout", "reset_hard", "stash_apply", "patch_add", "checkout_paths", "patch_rename", "patch_copy_to"] if q else \
         ["checkout", "checkout_force", "switch", "reset_hard", "stash_apply", "patch_add", "patch_del", "am", "checkout_paths", "restore_paths",
          "patch_rename", "patch_copy_to"]
     unbornA = ["checkout"] if q else ["checkout", "reset_hard"]
@@ -1137,8 +1139,8 @@ def run(ctx):
     planB = []
     if q:
         planB.append(("B-depth2", "default", fam_reuse(["updir", "upfile", "hooks", "gitfile", "gitnew"], ["f"], [], [POISON],
-                                                      poison_for=("f", "L:updir", "D"), slash_for=("updir",), deep=True),
-                      [k for k in TREE_OPS if k != "patch_copy_to"], 2))
+                                                      poison_for=("f", "L:updir", "D"), slash_for=("updir",)),
+                      [k for k in TREE_OPS if k not in ("patch_copy_to", "restore_paths")], 2))
         planB.append(("B-depth3", "default", fam_reuse(["updir", "gitfile"], ["f"], [], [POISON], poison_for=("L:updir",), in_tree=False),
                       ["checkout", "checkout_force", "reset_hard", "reset_mixed", "reset_soft", "stash_apply", "patch_add", "checkout_paths"], 3))
     else:
